@@ -28,6 +28,15 @@ while args:
 patch = os.path.join(src, f'patch{n}.diff')
 demo = os.path.join(src, f'demo{n}.py')
 note = os.path.join(src, f'note{n}.txt')
+if not os.path.exists(patch) and os.path.exists(os.path.join(src, 'patch.diff')):
+    # re-confirming an entry already filed under seeded/: copy it aside first (the entry is rewritten below)
+    import tempfile
+
+    tmp = tempfile.mkdtemp()
+    for a, b in (('patch.diff', 'patch.diff'), ('demo.py', 'demo.py'), ('note.txt', 'note.txt')):
+        if os.path.exists(os.path.join(src, a)):
+            shutil.copy(os.path.join(src, a), os.path.join(tmp, b))
+    patch, demo, note = (os.path.join(tmp, x) for x in ('patch.diff', 'demo.py', 'note.txt'))
 wt = f'/tmp/seedchk_{name}'
 meta = {'property': prop, 'name': name, 'ran': [], 'time': time.strftime('%Y-%m-%dT%H:%M:%SZ', time.gmtime())}
 
